@@ -4,7 +4,9 @@ import json, os, sys
 ROOT = os.path.dirname(os.path.abspath(__file__))
 sys.path.insert(0, ROOT)
 from props import PROPS
-from manifest_meta import META, NOT_APPLICABLE, HOOK_COMMITS, ENGINES
+from manifest_meta import META, NOT_APPLICABLE, ENGINES
+import subprocess
+HOOK_COMMITS = subprocess.check_output(['git', '-C', '/repo', 'log', '--format=%H', '--grep=^verif hooks'], text=True).split()
 
 ids = [json.loads(l)["id"] for l in open(os.path.join(ROOT, "properties.jsonl"))]
 checks = []
